@@ -157,6 +157,9 @@ structure IH (env : Env) (fuel : Nat) : Prop where
   inLoop : ∀ sv o body i st, Cons st → Cons (inLoop env fuel sv o body i st).2
   inLoopB : ∀ sv o w body i st, Cons st → Cons (inLoopB env fuel sv o w body i st).2
   inBatch : ∀ sv o bp w body els cache st, (∀ f ∈ cache, ConsF f) → Cons st → Cons (inBatch env fuel sv o bp w body els cache st).2
+  resolveNames : ∀ names bp bad st, Cons st → Cons (resolveNames env fuel names bp bad st).2
+  evalSortKey : ∀ x st, Cons st → Cons (evalSortKey env fuel x st).2
+  evalReverse : ∀ x st, Cons st → Cons (evalReverse env fuel x st).2
   letLoop : ∀ binds body st, Cons st → Cons (letLoop env fuel binds body st).2
 
 theorem ih_zero (env : Env) : IH env 0 where
@@ -176,6 +179,9 @@ theorem ih_zero (env : Env) : IH env 0 where
   inLoop := fun sv o body i st h => by unfold Render.inLoop; exact h
   inLoopB := fun sv o w body i st h => by unfold Render.inLoopB; exact h
   inBatch := fun sv o bp w body els cache st _ h => by unfold Render.inBatch; exact h
+  resolveNames := fun names bp bad st h => by unfold Render.resolveNames; exact h
+  evalSortKey := fun x st h => by unfold Render.evalSortKey; exact h
+  evalReverse := fun x st h => by unfold Render.evalReverse; exact h
   letLoop := fun binds body st h => by unfold Render.letLoop; exact h
 
 theorem invoke_cons (env : Env) (id : Nat) (r : Val) (st : St) (h : Cons st) : Cons (invoke env id r st).2 := by
@@ -678,6 +684,85 @@ theorem cacheOf_consF (src : Src) (v : Val) : ∀ f ∈ cacheOf src v, ConsF f :
   cases src <;> simp at hf
   subst hf; trivial
 
+theorem resolveNames_step (env : Env) (fuel : Nat) (ih : IH env fuel) (names : List (Text × Text)) (bp : BatchP) (bad : Bool)
+    (st : St) (h : Cons st) : Cons (resolveNames env (fuel + 1) names bp bad st).2 := by
+  cases names with
+  | nil => unfold resolveNames; exact h
+  | cons pn rest =>
+    obtain ⟨p, n⟩ := pn
+    unfold resolveNames
+    dsimp only
+    have h1 := ih.getitem n true st h
+    generalize getitem env fuel n true st = res at h1
+    obtain ⟨r, st'⟩ := res
+    have h1 : Cons st' := h1
+    cases r with
+    | ok v =>
+      dsimp only
+      cases paramInt v with
+      | ok i => exact ih.resolveNames _ _ _ _ h1
+      | bad => exact ih.resolveNames _ _ _ _ h1
+      | valueError =>
+        dsimp only
+        split
+        · exact ih.resolveNames _ _ _ _ h1
+        · exact h1
+    | raise e =>
+      dsimp only
+      split
+      · exact ih.resolveNames _ _ _ _ h1
+      · exact h1
+    | ret v =>
+      dsimp only
+      split
+      · exact ih.resolveNames _ _ _ _ h1
+      · exact h1
+    | oom => exact h1
+
+theorem evalSortKey_step (env : Env) (fuel : Nat) (ih : IH env fuel) (x : InXOpts) (st : St) (h : Cons st) :
+    Cons (evalSortKey env (fuel + 1) x st).2 := by
+  unfold evalSortKey
+  cases x.sortExpr with
+  | none => exact h
+  | some e =>
+    dsimp only
+    have h1 := ih.evalExpr e st h
+    generalize evalExpr env fuel e st = res at h1
+    obtain ⟨r, st'⟩ := res
+    cases r with
+    | ok v => cases v <;> exact h1
+    | raise ex => exact h1
+    | ret v => exact h1
+    | oom => exact h1
+
+theorem evalReverse_step (env : Env) (fuel : Nat) (ih : IH env fuel) (x : InXOpts) (st : St) (h : Cons st) :
+    Cons (evalReverse env (fuel + 1) x st).2 := by
+  unfold evalReverse
+  cases x.reverseExpr with
+  | none => exact h
+  | some e =>
+    dsimp only
+    have h1 := ih.evalExpr e st h
+    generalize evalExpr env fuel e st = res at h1
+    obtain ⟨r, st'⟩ := res
+    cases r <;> exact h1
+
+theorem sortPart_cons (env : Env) (o : InOpts) (x : InXOpts) (xs : List Val) (st : St) (h : Cons st) :
+    Cons (sortPart env o x xs st).2 := by
+  unfold sortPart
+  cases x.sortKey with
+  | none => exact h
+  | some k =>
+    dsimp only
+    have h1 := sortKeys_cons env o.mapping k xs st h
+    generalize sortKeys env o.mapping k xs st = res at h1
+    obtain ⟨r, st'⟩ := res
+    cases r with
+    | ok dec => dsimp only; split <;> exact h1
+    | raise e => exact h1
+    | ret v => exact h1
+    | oom => exact h1
+
 theorem withFrame_consF (mapping : Bool) (v : Val) :
     ConsF (if mapping = true then (match v with | .dict kvs => Frame.dict kvs | _ => Frame.bad)
            else Frame.inst (match v with | .tuple [x] => x | v => v) []) := by
@@ -879,43 +964,79 @@ theorem renderBlk_step (env : Env) (fuel : Nat) (ih : IH env fuel) (b : Blk) (st
         · rw [oneRes_snd]; exact ih.renderJoined _ _ hr
         · exact hr
       · rename_i _ xs hne heq
-        have ha := arrange_cons env o x xs st' hr
-        generalize arrange env o x xs st' = resa at ha ⊢
-        obtain ⟨ra, st1⟩ := resa
-        cases ra with
-        | ok ys =>
+        have hk := ih.evalSortKey x st' hr
+        generalize evalSortKey env fuel x st' = resk at hk ⊢
+        obtain ⟨rk, sA⟩ := resk
+        have hk : Cons sA := hk
+        cases rk with
+        | ok key =>
           dsimp only
-          have hcc := cacheOf_consF src v
-          generalize cacheOf src v = cache at hcc ⊢
-          cases x.batch with
-          | none =>
+          have hs := sortPart_cons env o { x with sortKey := key } xs sA hk
+          generalize sortPart env o { x with sortKey := key } xs sA = ress at hs ⊢
+          obtain ⟨rs, sB⟩ := ress
+          have hs : Cons sB := hs
+          cases rs with
+          | ok sorted =>
             dsimp only
-            have hl := ih.inLoop { items := ys, mapping := o.mapping, prefix_ := o.prefix_ } o body 0 _
-              (cons_push_seq st1 { items := ys, mapping := o.mapping, prefix_ := o.prefix_ } cache hcc ha)
-            generalize inLoop env fuel { items := ys, mapping := o.mapping, prefix_ := o.prefix_ } o body 0
-                { st1 with stack := (Frame.seq { items := ys, mapping := o.mapping, prefix_ := o.prefix_ } :: cache) ++ st1.stack } = res2 at hl ⊢
-            obtain ⟨r2, st2⟩ := res2
-            have hfin := cons_drop st2 (Frame.seq { items := ys, mapping := o.mapping, prefix_ := o.prefix_ } :: cache).length hl
-            cases r2 with
-            | ok ps => simp only; split <;> exact hfin
-            | raise e => exact hfin
-            | ret x => exact hfin
-            | oom => exact hfin
-          | some bp =>
-            dsimp only
-            have hq := ih.getitem (txt "QUERY_STRING") true st1 ha
-            generalize getitem env fuel (txt "QUERY_STRING") true st1 = resq at hq ⊢
-            obtain ⟨rq, st2⟩ := resq
-            have hb := ih.inBatch (batchInit { items := ys, mapping := o.mapping, prefix_ := o.prefix_ } (bwinOf bp ys.length))
-              o bp (bwinOf bp ys.length) body els cache st2 hcc hq
-            cases rq with
-            | oom => exact hq
-            | ok q => dsimp only; rw [oneRes_snd]; exact hb
-            | raise e => dsimp only; rw [oneRes_snd]; exact hb
-            | ret q => dsimp only; rw [oneRes_snd]; exact hb
-        | raise e => exact ha
-        | ret v => exact ha
-        | oom => exact ha
+            have ha := ih.evalReverse x sB hs
+            generalize evalReverse env fuel x sB = resr at ha ⊢
+            obtain ⟨rr, st1⟩ := resr
+            have ha : Cons st1 := ha
+            cases rr with
+            | ok rev =>
+              dsimp only
+              generalize applyReverse rev sorted = ys
+              have hcc := cacheOf_consF src v
+              generalize cacheOf src v = cache at hcc ⊢
+              cases x.batch with
+              | none =>
+                dsimp only
+                have hl := ih.inLoop { items := ys, mapping := o.mapping, prefix_ := o.prefix_ } o body 0 _
+                  (cons_push_seq st1 { items := ys, mapping := o.mapping, prefix_ := o.prefix_ } cache hcc ha)
+                generalize inLoop env fuel { items := ys, mapping := o.mapping, prefix_ := o.prefix_ } o body 0
+                    { st1 with stack := (Frame.seq { items := ys, mapping := o.mapping, prefix_ := o.prefix_ } :: cache) ++ st1.stack } = res2 at hl ⊢
+                obtain ⟨r2, st2⟩ := res2
+                have hfin := cons_drop st2 (Frame.seq { items := ys, mapping := o.mapping, prefix_ := o.prefix_ } :: cache).length hl
+                cases r2 with
+                | ok ps => simp only; split <;> exact hfin
+                | raise e => exact hfin
+                | ret x => exact hfin
+                | oom => exact hfin
+              | some bp0 =>
+                dsimp only
+                have hp := ih.resolveNames x.names bp0 false st1 ha
+                generalize resolveNames env fuel x.names bp0 false st1 = resp at hp ⊢
+                obtain ⟨rp, sP⟩ := resp
+                have hp : Cons sP := hp
+                cases rp with
+                | ok pb =>
+                  obtain ⟨bp, bad⟩ := pb
+                  dsimp only
+                  split
+                  · exact hp
+                  · have hq := ih.getitem (txt "QUERY_STRING") true sP hp
+                    generalize getitem env fuel (txt "QUERY_STRING") true sP = resq at hq ⊢
+                    obtain ⟨rq, st2⟩ := resq
+                    have hq : Cons st2 := hq
+                    have hb := ih.inBatch (batchInit { items := ys, mapping := o.mapping, prefix_ := o.prefix_ } (bwinOf bp ys.length))
+                      o bp (bwinOf bp ys.length) body els cache st2 hcc hq
+                    cases rq with
+                    | oom => exact hq
+                    | ok q => dsimp only; rw [oneRes_snd]; exact hb
+                    | raise e => dsimp only; rw [oneRes_snd]; exact hb
+                    | ret q => dsimp only; rw [oneRes_snd]; exact hb
+                | raise e => exact hp
+                | ret v => exact hp
+                | oom => exact hp
+            | raise e => exact ha
+            | ret v => exact ha
+            | oom => exact ha
+          | raise e => exact hs
+          | ret v => exact hs
+          | oom => exact hs
+        | raise e => exact hk
+        | ret v => exact hk
+        | oom => exact hk
     | raise e => exact hr
     | ret v => exact hr
     | oom => exact hr
@@ -943,6 +1064,9 @@ theorem all_cons (env : Env) : ∀ fuel, IH env fuel := by
       inLoop := inLoop_step env n ih
       inLoopB := inLoopB_step env n ih
       inBatch := inBatch_step env n ih
+      resolveNames := resolveNames_step env n ih
+      evalSortKey := evalSortKey_step env n ih
+      evalReverse := evalReverse_step env n ih
       letLoop := letLoop_step env n ih }
 
 end DTML.Lemmas.Cache
